@@ -179,7 +179,9 @@ INFO = {
              "CRLFCRLF / behind it / inside the body / at byte 1024, x Dialer.ReadBufferSize {0, 1, 256, 8192; thorough up to 65536}; "
              "URLs scheme x userinfo {none, user, user:password, :password, :, bare @} x host form x path/query x fragment, the "
              "userinfo forms also with an http / socks5 proxy configured (no proxy lookup); caller header "
-             "maps incl. every protocol-owned header; Dialer settings; histories of 2-3 dials) with ConnOnlyIfProven, "
+             "maps incl. every protocol-owned header and fields with 2-3 values (every value on the wire, in the caller's order; "
+             "canonical and non-canonical key spellings); Dialer settings; httptrace hooks installed in half of the configurations; "
+             "histories of 2-3 dials) with ConnOnlyIfProven, "
              "BadReplyIsErrBadHandshakeWithResponse, KeyFreshPerDial, RefusedBeforeNetwork as invariants and the refinement 'strict "
              "generator within envelope'; every abstract program is executed on the real Dialer against a scripted server and the "
              "recorded facts (dial hooks, request as parsed by an independent scanner, result class, response status/body) are "
@@ -207,14 +209,17 @@ INFO = {
     "C18": dict(
         text="Exhaustive TLC enumeration of the matrix {no proxy, http, https, socks5} x {ws, wss} x {NetDial, NetDialContext, "
              "NetDialTLSContext set/unset} x proxy credentials {none, user, user:password} x backend certificate {valid, other host, "
-             "untrusted CA} x URL host forms (name, IPv4, IPv6, with/without port) x CONNECT replies {200, 407, 403, 202, 204, 299, 301, "
-             "500, closed}, plus two-dial histories sharing one TLSClientConfig (MC_C18), with ProxyOnlyPath, "
+             "untrusted CA} x URL host forms (name, IPv4, IPv6, with/without port) x caller Host override {none, the URL's host, "
+             "another host the 'other' certificate is valid for} x CONNECT replies {200, 407, 403, 202, 204, 299, 301, "
+             "500, closed}, plus histories on one Dialer: two dials sharing one TLSClientConfig, and fail-then-succeed / "
+             "succeed-then-succeed sequences of 2-3 dials to different hosts through a proxy with credentials (MC_C18), with ProxyOnlyPath, "
              "ConnectExactlyOnceWithTarget, AuthIffPassword, Non200Aborts, WssInsideVerifiedTLS, FirstHopUsesApplicableHook as "
              "invariants; every cell is executed on the real Dialer against in-process HTTP/HTTPS/SOCKS5 proxies and TLS/plain backends "
              "(in-memory connections from the dial hooks, a loopback listener for cells without an applicable hook) and the layer-by-layer "
              "log of the remote side is validated by TLC against WSDial!LayersOK / HooksOK.",
         note=DNOTE + "NetDialTLSContext cells assert that the hook is used and no TLS layer is added on that hop. SNI, if sent, must name "
-             "the URL host. SOCKS5 authentication is not asserted.",
+             "the URL host, whatever the Host override says. SOCKS5: when the proxy URL carries user:password the username/password "
+             "method with exactly these credentials must be used (on every dial of a history).",
         technique="TLA+ model (WSDial) checked with TLC; TLC-generated programs replayed on the real code; trace validation with TLC"),
 }
 
